@@ -73,6 +73,14 @@ class VTime(EngineBase):
         world = {"mono0": 50000.0 + rng.randrange(0, 1000) +
                  rng.choice([0.0, 0.125, 0.3]), "sleep_jitter": jitter,
                  "root": rng.random() < 0.85}
+        if mode == "wait_procs" and rng.random() < 0.25:
+            jitter = jitter or rng.choice([0.003, 0.0001])
+            world["sleep_jitter"] = jitter
+            world["clock_cost"] = rng.choice([0.0005, 0.004, 0.004, 0.011])
+        elif jitter and rng.random() < 0.5:
+            # (jitter configuration only) every reading of the clock takes a
+            # little time too: a deadline may fall between two readings
+            world["clock_cost"] = rng.choice([0.0005, 0.004, 0.004])
         plan = {"mode": mode, "world": world, "eintr": [], "jitter": jitter}
         if mode == "wait":
             timeout = rng.choice(TIMEOUTS)
